@@ -21,6 +21,13 @@ def run(ctx):
                 continue
             ident = e.get('token', e.get('status', e.get('id') if e['ev'] == 'Listing' else 'resultset'))
             vlib.report(ctx, '%s:%s:%s' % (e['ev'], ident if e['ev'] not in ('RoundTrip', 'CliOut') else ('resultset' if e['ev'] == 'RoundTrip' else 'tool:' + e.get('how', '')), why), '%s %r: %s (%s)' % (e['ev'], e.get('id', ident), why, json.dumps(e)[:300]), dict(event=e))
+    # the listing inside the registry history: after refused registrations, late registrations and thousands of Filter calls the
+    # JSON listing still has exactly one line per registered lint (Trace_Registry, reason json-listing)
+    from checks import regcommon
+    jl, _ = regcommon.reasons(ctx, exe, {'json-listing'})
+    for (e, why) in jl:
+        vlib.report(ctx, 'Listing:history:%s' % e.get('when', ''), 'the JSON listing of the registry (%s) is not one line per registered lint: %d lines' % (e.get('when', ''), len(e.get('jsonListing', []))),
+                    dict(kind='registry', when=e.get('when')))
     cov = dict(evaluations=s['events'], distinct_nontrivial=s['nontrivial'] + s['tokens'],
                rule='evaluation = one value taken through the codec (status label, label decoding incl. non-labels, a whole ResultSet encode->decode->encode, a registry listing, the result object and the listing printed by the real zlint binary decoded and compared with what the library computes); '
                     'non-trivial = result sets with invalid-UTF-8 / non-ASCII details or >= 3 distinct statuses, plus decode probes',
